@@ -129,6 +129,17 @@ def stir(cfg):
                     arc.apply_overrides({"capacity": 7.0, "preference": 2.0})
                 except Exception:
                     pass
+            # ... and its orchestration is edited IN PLACE (a step named twice, one moved to the front, one dropped): legal
+            # for that model, and none of a later model's business
+            try:
+                if len(m.orchestration) >= 3:
+                    m.orchestration.insert(0, m.orchestration[-2])
+                    m.orchestration.append(dict(m.orchestration[2]))
+                    del m.orchestration[3]
+                    for step in m.orchestration[:2]:
+                        step.update({"Waste": "end_timestep"}) if False else None
+            except Exception:
+                pass
             m.run(dates=m.dates, verbose=False)
     except Exception:
         pass
